@@ -184,7 +184,7 @@ PROPS['C12'] = {
 PROPS['C13'] = {
     'level': 'other',
     'verus_units': ['quotient'],
-    'kani': {'quick': QF_QUICK + QF_QR, 'thorough': QF_THOROUGH},
+    'kani': {'quick': QF_QUICK + QF_QR + QF_UNION_QUICK[-1:], 'thorough': QF_THOROUGH + QF_UNION_THOROUGH[:1]},
     'explanation': 'Verus (unbounded): calc_quotient_remainder returns exactly the low bq+br hash bits split at br (bit-vector proof for all bq, br), Err(Full) only at len() == 2^bq and never below, Ok(false)/Err leave the state untouched, Ok(true) increments len, every index stays in range. Exact membership (the canonical-layout invariant) is bounded: Kani one-step contract harnesses: for EVERY set S of fingerprint classes of a small table (state = canonical layout enc(S), encoder written independently of the implementation) and every fingerprint: scan answers membership in S, insert_internal returns Ok(false)/Err/Ok(true) exactly as stated and the resulting state EQUALS enc(S + {(q,r)}) on all slots. History length is unbounded (induction over one-step from arbitrary state); table size is bounded. calc_quotient_remainder: complete over all 64-bit hashes for four (bq,br).',
     'trusted_base': COMMON_TRUST + ['the 40-line canonical-layout encoder in kani/harness/filters__quotientfilter.rs (independent oracle)'],
     'assumptions': ['table sizes 2 slots (quick) and 4 slots (thorough) only'],
